@@ -53,7 +53,10 @@ where
     T: Into<Cow<'a, str>>,
 {
     let s = s.into();
-    match s.find(char::is_uppercase) {
+    // Look for the first character that has a lowercase mapping. Testing
+    // `char::is_uppercase` is not enough: titlecase letters such as U+01C5
+    // are not uppercase, but they do change when they are lowercased
+    match s.find(|c: char| c.to_lowercase().ne(std::iter::once(c))) {
         None => Ok(s),
         Some(pos) => {
             let mut res = String::from(&s[..pos]);
